@@ -17,6 +17,7 @@ import (
 type Yielder interface {
 	Y(point string)
 	Logf(format string, a ...interface{})
+	Seq() uint64
 }
 
 // ReloadPlan says what the next DBI.Reload call does.
@@ -42,6 +43,9 @@ type Monitor struct {
 	Quiet                                                                         bool
 	// Context is set by the harness (the operation in progress); every Close remembers it.
 	Context string
+	// CatchUps are the [start, end] event sequence numbers of every in-place reload (catch-up)
+	// that was actually executed on a back end.
+	CatchUps [][2]uint64
 }
 
 // New creates a monitor.
@@ -265,7 +269,18 @@ func (b *Backend) Reload(path string) (db.DBI, error) {
 	default:
 		// opening another path does not touch this back end's store, closed or not
 		var nd db.DBI
+		isCatchUp := b.CatchUp != nil && b.CatchUp(path)
+		var s0 uint64
+		if isCatchUp {
+			s0 = b.m.y.Seq()
+		}
 		nd, err = b.inner.Reload(path)
+		if isCatchUp {
+			s1 := b.m.y.Seq()
+			b.m.mu.Lock()
+			b.m.CatchUps = append(b.m.CatchUps, [2]uint64{s0, s1})
+			b.m.mu.Unlock()
+		}
 		if err == nil && nd != nil {
 			if nd == b.inner {
 				out = b
